@@ -17,8 +17,9 @@ EXPLANATION = (
     "R20.4 column mapping: TreeColumn::name, get_stat and the match in finish_leaf map each variant to the stat of the "
     "same name (Samples <-> sample_count, Iters <-> iter_count); TreeColumn::ALL lists each variant once in declaration "
     "order. R20.5 ignored => ignore_leaf and return before anything that can run the benchmark. R20.6 run_tree visits "
-    "the (sorted, filtered) slice in order.")
-NOT_DECIDED = ["the rendered text itself (padding arithmetic, display widths of non-ASCII names, re-parseability)"]
+    "the (sorted, filtered) slice in order."
+    ' R20.7 wherever the name buffer is right-padded the number of spaces appended has a lower bound >= 1 over its canonical value expression (gap + saturating difference; lengths, counts and saturating differences are >= 0), so a name and the first column never run together, whatever the name length and the current span.')
+NOT_DECIDED = ["the rendered text itself beyond R20.3 (glyph/prefix widths) and R20.7 (the name/column gap never vanishes): column padding arithmetic, display widths of non-ASCII names"]
 
 P = "tree_painter::TreePainter::"
 EVENTS = {P + "start_parent": "(P", P + "finish_parent": "P)", P + "start_leaf": "(L", P + "finish_leaf": "L)",
